@@ -225,6 +225,10 @@ pub fn show_reply(p: &Packet) -> String {
 
 /// how many full blocks the scripted upload sends before its short final block
 pub fn upload_full_blocks(b: usize, w: usize) -> usize {
+    // a whole window of just over 1 MiB (and at most 2100 datagrams) is uploaded in full, paced
+    if 1_000_000 < b * w && b * w <= 1_250_000 && w <= 2100 {
+        return w;
+    }
     let by_bytes = std::cmp::max(1, 49152 / std::cmp::max(b, 1));
     std::cmp::min(std::cmp::min(w, 300), by_bytes)
 }
@@ -278,11 +282,15 @@ pub fn converse(listener: SocketAddr, dgram: &[u8]) -> (String, String) {
                 }
             }
             let nfull = upload_full_blocks(b, w);
+            let mut unpaced = 0usize;
             for k in 1..=nfull {
                 let d = Packet::Data { block_num: (k % 65536) as u16, data: gen_bytes(b, k) };
                 sock.send_to(&d.serialize().unwrap(), to).unwrap();
-                if k % 16 == 0 {
-                    std::thread::sleep(Duration::from_micros(300));
+                unpaced += b + 4;
+                if k % 16 == 0 || unpaced > 60000 {
+                    // pacing: the server's socket buffer must never overflow (a drop would be a fault, not an observation)
+                    std::thread::sleep(if slow() { Duration::from_millis(2) } else { Duration::from_micros(300) });
+                    unpaced = 0;
                 }
             }
             let d = Packet::Data { block_num: ((nfull + 1) % 65536) as u16, data: b"abc".to_vec() };
